@@ -40,7 +40,8 @@ pub fn hooks_of(v: &Value) -> Result<Vec<Hook>, String> {
 	for h in v.as_array().cloned().unwrap_or_default() {
 		let mut types = std::collections::HashSet::new();
 		for t in h["type"].as_array().cloned().unwrap_or_default() {
-			let ht: HookType = serde_json::from_value(t.clone()).map_err(|e| format!("hook type {t}: {e}"))?;
+			let ht: HookType =
+				serde_json::from_value(t.clone()).map_err(|e| format!("hook type {t}: {e}"))?;
 			types.insert(ht);
 		}
 		out.push(Hook {
@@ -55,7 +56,9 @@ pub fn hooks_of(v: &Value) -> Result<Vec<Hook>, String> {
 			stdin: hooks::HookStdin::None,
 			stdout: None,
 			stderr: None,
-			allow_failure: h["allow_failure"].as_bool().unwrap_or(crate::DEFAULT_HOOK_ALLOW_FAILURE),
+			allow_failure: h["allow_failure"]
+				.as_bool()
+				.unwrap_or(crate::DEFAULT_HOOK_ALLOW_FAILURE),
 		});
 	}
 	Ok(out)
@@ -96,11 +99,16 @@ fn prepare(p: &Path, pre: &Value) -> Result<(), String> {
 	let data = unhex(pre["content_hex"].as_str().unwrap_or(""));
 	let _ = std::fs::remove_file(p);
 	std::fs::write(p, &data).map_err(|e| format!("prepare write: {e}"))?;
-	let uid = pre["uid"].as_u64().map(|u| nix::unistd::Uid::from_raw(u as u32));
-	let gid = pre["gid"].as_u64().map(|g| nix::unistd::Gid::from_raw(g as u32));
+	let uid = pre["uid"]
+		.as_u64()
+		.map(|u| nix::unistd::Uid::from_raw(u as u32));
+	let gid = pre["gid"]
+		.as_u64()
+		.map(|g| nix::unistd::Gid::from_raw(g as u32));
 	nix::unistd::chown(p, uid, gid).map_err(|e| format!("prepare chown: {e}"))?;
 	let mode = pre["mode"].as_u64().unwrap_or(0o644) as u32;
-	std::fs::set_permissions(p, std::fs::Permissions::from_mode(mode)).map_err(|e| format!("prepare chmod: {e}"))?;
+	std::fs::set_permissions(p, std::fs::Permissions::from_mode(mode))
+		.map_err(|e| format!("prepare chmod: {e}"))?;
 	Ok(())
 }
 
@@ -135,22 +143,33 @@ fn cap_fsetid() -> bool {
 
 /// A real `Account` (through `Account::load` on an empty directory ⇒ a fresh account with a fresh key)
 /// shaped as the step asks: contacts, endpoints with URLs and hashes, past keys.
-async fn make_account(step: &Value, ref_fm: &FileManager) -> Result<crate::account::Account, String> {
+async fn make_account(
+	step: &Value,
+	ref_fm: &FileManager,
+) -> Result<crate::account::Account, String> {
 	let contacts: Vec<(String, String)> = step["contacts"]
 		.as_array()
 		.cloned()
 		.unwrap_or_default()
 		.iter()
-		.map(|c| (c[0].as_str().unwrap_or("mailto").to_string(), c[1].as_str().unwrap_or("").to_string()))
+		.map(|c| {
+			(
+				c[0].as_str().unwrap_or("mailto").to_string(),
+				c[1].as_str().unwrap_or("").to_string(),
+			)
+		})
 		.collect();
-	let mut a = crate::account::Account::load(ref_fm, &ref_fm.account_name, &contacts, &None, &None, &None)
-		.await
-		.map_err(|e| e.message)?;
+	let mut a =
+		crate::account::Account::load(ref_fm, &ref_fm.account_name, &contacts, &None, &None, &None)
+			.await
+			.map_err(|e| e.message)?;
 	for e in step["endpoints"].as_array().cloned().unwrap_or_default() {
 		let n = e[0].as_str().unwrap_or("ep");
 		a.add_endpoint_name(n);
-		a.set_account_url(n, e[1].as_str().unwrap_or("")).map_err(|e| e.message)?;
-		a.set_orders_url(n, e[2].as_str().unwrap_or("")).map_err(|e| e.message)?;
+		a.set_account_url(n, e[1].as_str().unwrap_or(""))
+			.map_err(|e| e.message)?;
+		a.set_orders_url(n, e[2].as_str().unwrap_or(""))
+			.map_err(|e| e.message)?;
 		a.update_key_hash(n).map_err(|e| e.message)?;
 		a.update_contacts_hash(n).map_err(|e| e.message)?;
 	}
@@ -264,7 +283,13 @@ pub async fn write_history(input: &Value) -> Value {
 	let old = nix::sys::stat::umask(nix::sys::stat::Mode::from_bits_truncate(um));
 	let _guard = UmaskGuard(old);
 	let mut steps = vec![];
-	for (i, s) in input["steps"].as_array().cloned().unwrap_or_default().iter().enumerate() {
+	for (i, s) in input["steps"]
+		.as_array()
+		.cloned()
+		.unwrap_or_default()
+		.iter()
+		.enumerate()
+	{
 		steps.push(one_step(&root, i, s).await);
 	}
 	json!({
